@@ -1,6 +1,6 @@
 \* 5 base directories (1-2 utterances, 1-D / 2-D references, without ali/ or ref/), every single
 \* defect and every pair of 16 defects, histories strict / fix k / strict (k = 0, 1, 2), fix 0 / fix 2,
-\* fix 1 / fix 1
+\* fix 1 / fix 1; all of it also through a data set with sos + eos, with eos only, with tokens_only
 INIT Init
 NEXT Next
 CONSTANTS
@@ -8,11 +8,15 @@ CONSTANTS
   DefectSet <- DefectsQuick
   MaxDefects = 2
   Plans <- PlansQuick
+  Views <- ViewsQuick
+  ViewPlans <- ViewPlansQuick
 INVARIANT BasesAreWellFormed
 INVARIANT StrictIffWellFormed
 INVARIANT FixIffRepairable
 INVARIANT AcceptedIsWellFormed
 INVARIANT RepairIdempotent
 INVARIANT InfoIsRecount
+INVARIANT RepairCommutesWithView
+INVARIANT UndamagedUntouched
 INVARIANT Export
 CHECK_DEADLOCK FALSE
